@@ -25,6 +25,37 @@ fn h<T: Hash>(t: &T) -> u64 {
     s.finish()
 }
 
+/// A Hasher that records which write_* methods were called with which bytes: two values
+/// hash identically under EVERY Hasher iff they produce the same record.
+#[derive(Default)]
+struct Recorder {
+    calls: Vec<(&'static str, Vec<u8>)>,
+}
+
+macro_rules! rec_int {
+    ($($m:ident $t:ty),*) => {$(
+        fn $m(&mut self, i: $t) {
+            self.calls.push((stringify!($m), i.to_le_bytes().to_vec()));
+        }
+    )*};
+}
+
+impl Hasher for Recorder {
+    fn finish(&self) -> u64 {
+        0
+    }
+    fn write(&mut self, bytes: &[u8]) {
+        self.calls.push(("write", bytes.to_vec()));
+    }
+    rec_int!(write_u8 u8, write_u16 u16, write_u32 u32, write_u64 u64, write_u128 u128, write_usize usize, write_i8 i8, write_i16 i16, write_i32 i32, write_i64 i64, write_i128 i128, write_isize isize);
+}
+
+fn record<T: Hash>(t: &T) -> Vec<(&'static str, Vec<u8>)> {
+    let mut r = Recorder::default();
+    t.hash(&mut r);
+    r.calls
+}
+
 impl Prop for C09 {
     type Case = Case;
     fn id(&self) -> &'static str {
@@ -32,13 +63,13 @@ impl Prop for C09 {
     }
     fn rule(&self) -> String {
         "Generated: Decimal representations (all coefficient classes plus 2^a*5^b*m gcd stress up to 2^126 / 5^18 and m*10^k trailing zeros); for each the normalised base value and ALL its equal-valued representations (c0*10^k, f0+k) with f0+k <= 18 that fit are formed. \
-         Hash (std DefaultHasher with fixed keys) must be identical across all representations and equal to the hash of the (numerator, denominator) tuple; a HashSet holding one representation must contain every other. \
+         Hash (std DefaultHasher with fixed keys) must be identical across all representations and equal to the hash of the (numerator, denominator) tuple; a recording Hasher (method name and bytes of every write_* call) must see the same call sequence for all representations, and the same for element-wise equal slices through hash_slice (Vec / array keys); a HashSet holding one representation must contain every other. \
          as_integer_ratio / numerator / denominator must equal (c/g, 10^f/g) with g from Euclid's algorithm on big integers, d > 0, gcd 1; integers of the 9 types give (i, 1). \
          Non-trivial: at least two representations exist or g > 1. Distinct: hash of the case."
             .into()
     }
     fn assumptions(&self) -> Vec<String> {
-        vec!["operands |coefficient| <= 2^127-1".into(), "hash equality is checked with std's DefaultHasher (SipHash, fixed keys); other Hasher implementations see the same byte stream".into()]
+        vec!["operands |coefficient| <= 2^127-1".into(), "agreement with the (numerator, denominator) tuple is checked with std's DefaultHasher (SipHash, fixed keys); agreement between equal representations under any Hasher through the recorded write calls".into()]
     }
     fn cases(&self, tier: Tier) -> u64 {
         match tier {
@@ -137,9 +168,31 @@ impl Prop for C09 {
                     let mut bad: Vec<String> = Vec::new();
                     let mut set: HashSet<Decimal> = HashSet::new();
                     set.insert(dec);
+                    let rec0 = record(&dec);
                     for r in &reprs {
                         let rd = r.dec();
                         let hv = h(&rd);
+                        // any Hasher: the sequence of write calls must not depend on the representation
+                        let rec = record(&rd);
+                        if rec != rec0 {
+                            bad.push(format!("a recording Hasher sees {rec:?} for {r} but {rec0:?} for the equal value {x}"));
+                        }
+                        // equal slices (element-wise equal values) must hash identically too:
+                        // Vec<Decimal> / [Decimal; N] keys go through hash_slice
+                        let slice_rec = |v: &[Decimal]| {
+                            let mut a = Recorder::default();
+                            Hash::hash_slice(v, &mut a);
+                            a.calls
+                        };
+                        let base = slice_rec(&[dec, dec]);
+                        for (what, v) in [("[r, x]", [rd, dec]), ("[x, r]", [dec, rd]), ("[r, r]", [rd, rd])] {
+                            if slice_rec(&v) != base {
+                                bad.push(format!("hash_slice of {what} with r = {r} feeds {:?}, hash_slice of [x, x] feeds {base:?} although all elements are equal", slice_rec(&v)));
+                            }
+                        }
+                        if h(&vec![rd, dec]) != h(&vec![dec, dec]) {
+                            bad.push(format!("hash(vec![{r}, {x}]) differs from hash(vec![{x}, {x}])"));
+                        }
                         if hv != want {
                             bad.push(format!("hash({r}) = {hv:#x} differs from hash(({n}, {d})) = {want:#x}"));
                         }
